@@ -31,8 +31,8 @@ From SZ Require Gen.KA_Sum Gen.KA_Count Gen.KA_Size Gen.KA_Mean Gen.KA_Var Gen.K
    Base/BridgeAggsWindow.v proves that, with the interface instantiated by the frames of DF/Window.v, the state component
    they return is the model's on_new / on_old and the value they return is `fin` of that state (repaired scalar variant:
    mean_agg true true, var_agg true true ddof); f2onum: a float result as the model's onum, infinities kept apart. *)
-From SZ Require Import Base.AggPrims Base.BridgeAggsWindow.
-From SZ Require Gen.KA_Sum Gen.KA_Count Gen.KA_Size Gen.KA_Mean Gen.KA_Var Gen.KA_Accumulator.""",
+From SZ Require Import Base.AggPrims Base.BridgeAggsWindow Base.BridgeAggsIloc.
+From SZ Require Gen.KA_Sum Gen.KA_Count Gen.KA_Size Gen.KA_Mean Gen.KA_Var Gen.KA_Accumulator Gen.KA_DiffIloc.""",
 }
 
 G = "Gen.KA_%s.gen_%s"
@@ -118,6 +118,8 @@ WIN += [
      "bridge_w_var_compute_result", "res"),
     ("var_total", "forall ddof, raises_on_pyint (var_agg true true ddof) = false", "bridge_w_var_total", "res"),
     ("diff_expanding", "forall dfs new, Some (Gen.KA_Accumulator.gen_diff_expanding window_ops dfs new) = diff WE dfs new", "bridge_w_diff_expanding", "exp"),
+    # window(n=N): the `while` loop as recursion on fuel; never IndexError, never out of fuel, and the model's diff_iloc
+    ("diff_iloc", "forall N dfs new, Gen.KA_DiffIloc.gen_diff_iloc window_ops dfs new (Z.of_nat N) = Some (diff_iloc N dfs new)", "bridge_w_diff_iloc", "exp"),
 ]
 
 WHICH = {
@@ -128,8 +130,10 @@ WHICH = {
 
 
 def group_of(suffix):
-    if suffix in ("accumulator", "diff_expanding"):
+    if suffix == "accumulator":
         return "accumulator"
+    if suffix.startswith("diff_"):
+        return "diff"
     if suffix.startswith("divide"):
         return "Mean"
     return suffix.split("_")[0].capitalize()
